@@ -195,12 +195,15 @@ def equalIgnoreHash (a b : Tmpl) : Bool :=
   let b' := { b with hash := "" }
   a' == b'
 
-/-- `schema.ParseGroupVersion`, group only; `none` = error. -/
+/-- `schema.ParseGroupVersion`, group only; `none` = error.
+    (`strings.Count(gv, "/")` and `gv[:strings.Index(gv, "/")]` on the character list.) -/
 def parseGroupVersion (gv : String) : Option String :=
   if gv == "" || gv == "/" then some ""
-  else match gv.splitOn "/" with
-    | [_] => some ""
-    | [g, _] => some g
+  else
+    let cs := gv.toList
+    match cs.count '/' with
+    | 0 => some ""
+    | 1 => some (String.ofList (cs.takeWhile (· != '/')))
     | _ => none
 
 /-- `fetchMatchedRollout` (identical in both handlers): first Rollout of the list
@@ -479,6 +482,25 @@ def finish : HRes → Res
   | .ok false _ => .allowed
   | .ok true o => .patched o
 
+/-- the DaemonSet case of `WorkloadHandler.Handle`: decode new and old, then `handleDaemonSet` -/
+def dispatchDaemonSet (rq : Req) : Res :=
+  match decodeTypedUS rq.new.us, decodeTypedUS rq.old.us with
+  | some us, some _ => finish (handleDaemonSet { rq.new with us := us } rq.old rq.rollouts)
+  | _, _ => .errored               -- Decoder.Decode fails
+
+/-- the `switch req.Kind.Group { … switch req.Kind.Kind { … } }` of `WorkloadHandler.Handle` -/
+def dispatchWorkload (rq : Req) : Res :=
+  if rq.new.group == "apps.kruise.io" then
+    if rq.new.kind == "CloneSet" then
+      finish (handleCloneSet rq.new rq.old rq.rollouts)
+    else if rq.new.kind == "DaemonSet" then dispatchDaemonSet rq
+    else .allowed
+  else if rq.new.group == "apps" then
+    if rq.new.kind == "Deployment" then
+      finish (handleDeployment rq.new rq.old rq.rollouts rq.rss)
+    else .allowed
+  else .allowed
+
 /-- `WorkloadHandler.Handle` -/
 def handleWorkload (rq : Req) : Res :=
   if rq.op != "UPDATE" || rq.subResource != "" then .allowed
@@ -486,24 +508,17 @@ def handleWorkload (rq : Req) : Res :=
     | .err => .errored
     | .panic => .panic
     | .ok false => .allowed
-    | .ok true =>
-      if rq.new.group == "apps.kruise.io" then
-        if rq.new.kind == "CloneSet" then
-          finish (handleCloneSet rq.new rq.old rq.rollouts)
-        else if rq.new.kind == "DaemonSet" then
-          match decodeTypedUS rq.new.us, decodeTypedUS rq.old.us with
-          | some us, some _ =>
-            finish (handleDaemonSet { rq.new with us := us } rq.old rq.rollouts)
-          | _, _ => .errored               -- Decoder.Decode fails
-        else .allowed
-      else if rq.new.group == "apps" then
-        if rq.new.kind == "Deployment" then
-          finish (handleDeployment rq.new rq.old rq.rollouts rq.rss)
-        else .allowed
-      else .allowed
+    | .ok true => dispatchWorkload rq
 
 /-- `util.IsWorkloadType(obj, StatefulSetType)` -/
 def isStatefulSetType (o : Obj) : Bool := o.workloadType.toLower == "statefulset"
+
+/-- the part of `UnifiedWorkloadHandler.Handle` after `checkWorkloadRules` -/
+def dispatchUnified (rq : Req) : Res :=
+  if rq.new.group == "apps.kruise.io" && (rq.new.kind == "CloneSet" || rq.new.kind == "DaemonSet") then .allowed
+  else if rq.new.group == "apps" && rq.new.kind == "Deployment" then .allowed
+  else if !isStatefulSetType rq.new && rq.new.kind != "StatefulSet" then .allowed
+  else finish (handleStatefulSetLike rq.new rq.old rq.oldMetaPresent rq.rollouts)
 
 /-- `UnifiedWorkloadHandler.Handle` -/
 def handleUnified (rq : Req) : Res :=
@@ -512,11 +527,7 @@ def handleUnified (rq : Req) : Res :=
     | .err => .errored
     | .panic => .panic
     | .ok false => .allowed
-    | .ok true =>
-      if rq.new.group == "apps.kruise.io" && (rq.new.kind == "CloneSet" || rq.new.kind == "DaemonSet") then .allowed
-      else if rq.new.group == "apps" && rq.new.kind == "Deployment" then .allowed
-      else if !isStatefulSetType rq.new && rq.new.kind != "StatefulSet" then .allowed
-      else finish (handleStatefulSetLike rq.new rq.old rq.oldMetaPresent rq.rollouts)
+    | .ok true => dispatchUnified rq
 
 /-- the handler the request is routed to -/
 def handle (rq : Req) : Res :=
